@@ -6,17 +6,23 @@
    that simplify() recorded when it dropped a variable (ghost list).  `sat r m <-> sat r (P m)` is
    the property for pass P: no solution is lost, none is added, every recorded elimination holds.
 
-   NOT proved (the composed `C14_preserves` for whole option sets is therefore not claimed):
-   - the backward half (no solution added) of the value-into-value fixpoint passes with CHAINED
-     definitions (eliminable variables referring to eliminable variables, parameter / constant
-     expressions referring to each other): needs the rank argument over an acyclic dependency order;
-   - the composition of detect_aliases (da_loop + AliasRelation.add + skip of old aliases): only
-     the recognised equation shapes and the substitution step are proved;
-   - the slow (substitute-to-zero) alias path is unsound in general (C14_slow_path_refuted), it is
-     sound only for equations affine in the two symbols — outside the generated fragment. *)
+   `sat2 r m` = `sat r m` and every recorded alias holds with its sign (rel_sat).
+   Round 2: every modelled pass is now an EQUIVALENCE, and they are composed for _simplify_once in
+   the code's order and for the outer iteration (C14_simplify_once_preserves, C14_preserves), for
+   every subset of the modelled options, under carve-out hypotheses stated on the model that
+   reaches each pass (run_ok / loop_ok): acyclic definitions for the three value-into-value loops
+   (carves out the two cyclic known findings), the recognised alias equations mean what
+   detect_alias says (true for the fast path, C14_alias_shapes_partial; excludes the a^2 - b^2
+   slow-path shape, C14_slow_path_refuted), no parameter is eliminated as an alias, and
+   (replace_constant_values only) no alias entry has a constant as canonical variable.
+   STILL OPEN: (i) removing that last hypothesis needs the ghost bookkeeping of removed alias
+   entries (lemma: lookup of every constant name in the resolved substitution succeeds);
+   (ii) "no parameter is eliminated" should follow from the invariant `every alias member is
+   algebraic` (members_ok, not proved); (iii) the alias relation is proved directly on the
+   model's signed entry lists (arel_add_sound) — it is NOT linked to C17's gmap model. *)
 From Coq Require Import ZArith QArith Qcanon List Bool PArith.
 Import ListNotations.
-From PV Require Import Model.C14_simplify Proofs.C14_simplify.
+From PV Require Import Model.C14_simplify Proofs.C14_simplify Proofs.C14_compose.
 Open Scope Qc_scope.
 
 (* ca.substitute followed by CasADi's on-the-fly re-simplification (mk_un / mk_bin, 30 rewrite
@@ -73,6 +79,61 @@ Theorem C14_slow_path_refuted :
     detect_alias [] e = Some (a, b, false) /\ eval r e = 0 /\ r a <> r b.
 Proof. exists e_squares, r_squares, 1%positive, 2%positive. exact slow_path_unsound. Qed.
 Print Assumptions C14_slow_path_refuted.
+
+(* value-into-value loops (parameter / constant expressions): equivalence for acyclic definitions,
+   whatever the loop's outcome (rank argument: one substitution step can be undone) *)
+Theorem C14_pass_replace_expressions (on_params : bool) (r : env) (m : model) :
+  acyclic (expr_defs on_params m) -> (sat r m <-> sat r (replace_exprs on_params m)).
+Proof. exact (sound_replace_exprs on_params r m). Qed.
+Print Assumptions C14_pass_replace_expressions.
+
+(* eliminable_variable_expression: full equivalence for acyclic (also chained) assignments *)
+Theorem C14_pass_eliminable (r : env) (mt : list name) (m : model) :
+  acyclic (elim_defs mt m) -> failed m = false -> failed (eliminate_vars mt m) = false ->
+  (sat r m <-> sat r (eliminate_vars mt m)).
+Proof. exact (sound_eliminate_vars r mt m). Qed.
+Print Assumptions C14_pass_eliminable.
+
+(* replace_constant_values incl. constants whose values are expressions in other constants *)
+Theorem C14_pass_replace_constant_values_partial (r : env) (m : model) :
+  acyclic (const_defs m) -> no_const_canonical m -> failed (replace_const_values m) = false ->
+  (sat2 r m <-> sat2 r (replace_const_values m)).
+Proof. exact (sound_replace_const_values r m). Qed.
+Print Assumptions C14_pass_replace_constant_values_partial.
+
+(* AliasRelation.add with sign and canonical choice: the new relation says exactly the old
+   relation plus a = [-]b; None only for a contradictory pair *)
+Theorem C14_alias_add_sound (r : env) (R R' : list acls) (a b : name) (nb : bool) :
+  arel_add R a b nb = Some R' -> (rel_sat r R' <-> rel_sat r R /\ r a = sgnq nb (r b)).
+Proof. exact (arel_add_sound r R a b nb R'). Qed.
+Print Assumptions C14_alias_add_sound.
+
+(* detect_aliases as a whole (loop over the equations, _make_alias with do_not_eliminate / swap /
+   allow_derivative_aliases, add with sign, skip of aliases handled earlier, elimination) *)
+Theorem C14_pass_detect_aliases (r : env) (ad : bool) (m : model) :
+  shapes_ok r (map fst (params m) ++ map fst (consts m)) (eqs m) ->
+  failed (detect_aliases ad m) = false ->
+  map fst (params (detect_aliases ad m)) = map fst (params m) ->
+  (sat2 r m <-> sat2 r (detect_aliases ad m)).
+Proof. exact (sound_detect_aliases r ad m). Qed.
+Print Assumptions C14_pass_detect_aliases.
+
+(* _simplify_once = the seven modelled passes (`passes o`: replace_parameter_expressions,
+   replace_constant_expressions, eliminate_constant_assignments, replace_parameter_values,
+   replace_constant_values, eliminable_variable_expression + expand_mx, detect_aliases +
+   allow_derivative_aliases) in the code's order, each enabled or not by its option *)
+Theorem C14_simplify_once_preserves (r : env) (o : options) (m : model) :
+  run_ok (passes o) m -> failed (simplify_once o m) = false ->
+  (sat2 r m <-> sat2 r (simplify_once o m)).
+Proof. exact (simplify_once_sound r o m). Qed.
+Print Assumptions C14_simplify_once_preserves.
+
+(* simplify(): the outer iteration (iterative_simplification) with SIMPLIFICATION_LOOP_LIMIT *)
+Theorem C14_preserves (r : env) (o : options) (m : model) :
+  loop_ok SIMPLIFICATION_LOOP_LIMIT o 0%nat m -> failed (simplify o m) = false ->
+  (sat2 r m <-> sat2 r (simplify o m)).
+Proof. exact (simplify_sound r o m). Qed.
+Print Assumptions C14_preserves.
 
 (* non-vacuity: a concrete regular model with a parameter, a constant, an eliminable variable and
    a negative alias is satisfied by its solution; simplify() with six options leaves one unknown,
